@@ -6,6 +6,7 @@ comparison and event-log digests (C09 mainly).
 from __future__ import annotations
 
 import dataclasses
+import datetime
 import enum
 import functools
 import hashlib
@@ -46,6 +47,8 @@ def canon(obj, depth: int = 0):
         return ["f", core.fbits(obj)]
     if isinstance(obj, np.generic):
         return canon(obj.item(), depth + 1) if not isinstance(obj, np.floating) else ["f", core.fbits(float(obj))]
+    if isinstance(obj, datetime.datetime | datetime.date):
+        return ["datetime", obj.isoformat()]
     if isinstance(obj, enum.Enum):
         return ["enum", type(obj).__name__, obj.name]
     if isinstance(obj, np.ndarray):
